@@ -58,7 +58,7 @@ def campaign(ctx, target, prop, seed_globs, runs, dict_file=None, max_len=4096, 
     allow = allow_list(allow_props or [prop])
     env = dict(os.environ, VFUZZ_ALLOW=",".join(allow))
     cmd = [exe, corpus, "-seed=%d" % (ctx.seed * 1000 + ctx.w + 1), "-runs=%d" % runs, "-max_len=%d" % max_len,
-           "-artifact_prefix=" + arts + "/", "-len_control=0", "-print_final_stats=1", "-timeout=20", "-rss_limit_mb=4096"]
+           "-artifact_prefix=" + arts + "/", "-len_control=0", "-print_final_stats=1", "-timeout=20", "-rss_limit_mb=4096", "-detect_leaks=0"]
     if dict_file and os.path.exists(dict_file):
         cmd.append("-dict=" + dict_file)
     t0 = time.monotonic()
@@ -90,7 +90,15 @@ def campaign(ctx, target, prop, seed_globs, runs, dict_file=None, max_len=4096, 
             loc = re.findall(r"VFUZZ-PANIC at (\S+)", out)
             msg = re.findall(r"panicked at [^\n]*\n[^\n]*", out)
             crashes.append((f, loc[-1] if loc else "", msg[-1] if msg else out[-600:]))
-            # move the crashing input out of the way so that the campaign continues behind it
+            # take the crashing unit out of the corpus so that the campaign continues behind it
+            bad = hashlib.sha1(open(os.path.join(arts, f), "rb").read()).hexdigest()
+            for cf in os.listdir(corpus):
+                cp = os.path.join(corpus, cf)
+                try:
+                    if hashlib.sha1(open(cp, "rb").read()).hexdigest() == bad:
+                        os.remove(cp)
+                except OSError:
+                    pass
         if done >= runs:
             break
     stats["executions"] = done
